@@ -523,3 +523,117 @@ func RStepDecode(c *core.Ctx) {
 		c.Anchor("cursor steps by a decoded rune width")
 	}
 }
+
+// ---------------------------------------------------------------------------
+// R-UNITCMP: byte offsets and rune indexes are not compared with each other.
+// Byte-valued: results of Capture.ByteRange, of the adapter's captureIndex
+// (elements of the slice it returns), of stringByteMapper.byteIndex.
+// Rune-valued: Capture.RuneIndex, Capture.RuneLength, Match.textpos.
+// A comparison between the two kinds (the adjacency test of the find-all
+// loops: "does this empty match touch the previous one?") is right on ASCII
+// text and wrong after the first multi-byte rune.
+// ---------------------------------------------------------------------------
+
+func RUnitCmp(c *core.Ctx) {
+	c.Rule("R-UNITCMP", "within a function of packages regexp2 / compat no value derived from a byte-offset source (Capture.ByteRange, captureIndex, stringByteMapper.byteIndex; through +, -, phi) is compared with a value derived from a rune-index field (Capture.RuneIndex, Capture.RuneLength, Match.textpos)", 3)
+	p := c.P
+	byteFns := map[*ssa.Function]bool{}
+	for _, n := range [][2]string{{"", "Capture.ByteRange"}, {"compat", "captureIndex"}, {"", "stringByteMapper.byteIndex"}} {
+		if f := p.SSAFunc(p.LookupFunc(n[0], n[1])); f != nil {
+			byteFns[f] = true
+		} else {
+			c.Anchor(n[0] + "." + n[1])
+		}
+	}
+	runeFields := map[*types.Var]bool{}
+	for _, n := range [][2]string{{"Capture", "RuneIndex"}, {"Capture", "RuneLength"}, {"Match", "textpos"}} {
+		if f := p.LookupField("", n[0], n[1]); f != nil {
+			runeFields[f] = true
+		} else {
+			c.Anchor("regexp2." + n[0] + "." + n[1])
+		}
+	}
+	nFn := 0
+	for _, fn := range p.ModuleFuncs() {
+		pkg := core.FnPkgPath(fn)
+		if pkg != core.PkgRoot && pkg != core.PkgCompat {
+			continue
+		}
+		kind := map[ssa.Value]int{} // 1 byte, 2 rune
+		has := [3]bool{}
+		for changed := true; changed; {
+			changed = false
+			set := func(v ssa.Value, k int) {
+				if k != 0 && kind[v] == 0 {
+					kind[v] = k
+					has[k] = true
+					changed = true
+				}
+			}
+			for _, b := range fn.Blocks {
+				for _, ins := range b.Instrs {
+					switch x := ins.(type) {
+					case *ssa.Call:
+						if cal := x.Call.StaticCallee(); cal != nil && byteFns[cal] {
+							set(x, 1)
+						}
+					case *ssa.Extract:
+						set(x, kind[x.Tuple])
+					case *ssa.IndexAddr:
+						set(x, kind[x.X])
+					case *ssa.Index:
+						set(x, kind[x.X])
+					case *ssa.UnOp:
+						if x.Op == token.MUL {
+							if f := core.FieldVarOfAddr(x.X); f != nil && runeFields[f] {
+								set(x, 2)
+							} else {
+								set(x, kind[x.X])
+							}
+						}
+					case *ssa.BinOp:
+						if x.Op == token.ADD || x.Op == token.SUB {
+							if kind[x.X] != 0 && (kind[x.Y] == kind[x.X] || kind[x.Y] == 0) {
+								set(x, kind[x.X])
+							} else if kind[x.Y] != 0 && kind[x.X] == 0 {
+								set(x, kind[x.Y])
+							}
+						}
+					case *ssa.Phi:
+						for _, e := range x.Edges {
+							if kind[e] != 0 {
+								set(x, kind[e])
+							}
+						}
+					}
+				}
+			}
+		}
+		if !has[1] {
+			continue // no byte offsets in this function
+		}
+		nFn++
+		name := core.SSAName(fn)
+		c.Visit(name)
+		bad := token.NoPos
+		what := ""
+		for _, b := range fn.Blocks {
+			for _, ins := range b.Instrs {
+				bin, ok := ins.(*ssa.BinOp)
+				if !ok {
+					continue
+				}
+				switch bin.Op {
+				case token.EQL, token.NEQ, token.LSS, token.LEQ, token.GTR, token.GEQ:
+					if kind[bin.X] != 0 && kind[bin.Y] != 0 && kind[bin.X] != kind[bin.Y] {
+						bad, what = bin.Pos(), bin.String()
+					}
+				}
+			}
+		}
+		c.Check(bad == token.NoPos, name+" / byte offsets and rune indexes are not compared", fn.Pos(), "%s at %s compares a byte offset with a rune index: equal only while every rune before the position is one byte wide", what, p.Pos(bad))
+	}
+	if nFn == 0 {
+		c.Anchor("functions that obtain byte offsets (ByteRange / captureIndex / byteIndex)")
+	}
+}
